@@ -238,7 +238,23 @@ def run(ctx):
               arc.file_member(rnd, '-lz4-' if j % 2 else '-lh0-', b'third.bin', size=sizes[(j * 7 + 3) % len(sizes)] % 70000, level=lv),
               arc.file_member(rnd, '-lh1-', b'fourth.bin', size=9, level=1)]
         skipsz.append(('skip-size-%d#%d' % (sz, j), arc.archive(ms)))
-    base = corp + gen + skipsz
+    # first headers of particular total sizes (a level-2/3 header starts with its own size: 256 -> 00 01, 512 -> 00 02, ...), so that
+    # the first bytes behind a stub take unusual values
+    from ..lhamodel import header as H
+    hdrsz = []
+    for lvl in (2, 3, 1, 0):
+        for target in ((255, 256, 257, 511, 512, 513, 768, 1024, 4096) if lvl >= 2 else (60, 100, 255, 257)):
+            for k in range(1, 5000):
+                m = H.simple_member(b'n' * k, b'first', level=lvl)
+                L = len(H.build_header(m)[0])
+                if L >= target:
+                    break
+            if L != target:
+                continue
+            tail = [arc.file_member(rnd, '-lh5-', b'second.bin', size=30, level=1), arc.file_member(rnd, '-lh0-', b'third.bin', size=9, level=2)]
+            hdrsz.append(('first-header-L%d-%dbytes' % (lvl, target), H.build(m) + b''.join(x.bytes() for x in tail) + b'\0'))
+    ctx.cov['first_header_size_archives'] = len(hdrsz)
+    base = corp + gen + skipsz + hdrsz
     # truncations
     trunc = []
     for name, A in (base[:10] if ctx.tier == 'quick' else base[:80]):
@@ -266,7 +282,7 @@ def run(ctx):
     ctx.cov['prefix_variants'] = len(prefs)
     ctx.cov['archives'] = len(base)
     ctx.cov['truncated_variants'] = len(trunc)
-    ctx.cov['rule'] = ('(archive, stream kind, prefix) triples; archives = corpus + generated + four-member archives whose first/third stored members have sizes on and around powers of two and multiples of 512/4096 + truncations; prefixes = stub bytes without "-" '
+    ctx.cov['rule'] = ('(archive, stream kind, prefix) triples; archives = corpus + generated + archives whose first header has a total size of 255..257, 511..513, 768, 1024, 4096 bytes + four-member archives whose first/third stored members have sizes on and around powers of two and multiples of 512/4096 + truncations; prefixes = stub bytes without "-" '
                        'and "L" at every length 0..64, around multiples of 12/24, near the 255 KiB limit, random lengths, near misses of the marker strings (prefixes, single-character changes, case changes), and marker+decoy forms at gaps up to 200 000 bytes and at '
                        'gaps 0..35; reference = callbacks-with-skip on the bare archive; distinct by (archive, kind, prefix); non-trivial = '
                        'archive has at least one member and the triple is not the reference itself')
